@@ -75,6 +75,8 @@ def entry_state(ex, con, fs):
         v = Z.fresh_val('arg_' + args.kwarg.arg)
         env[args.kwarg.arg] = v
         facts.append(z3.And(Z.is_ref(v), Z.addr(v) >= 0, Z.addr(v) < h0.alloc, h0.kind_of(Z.addr(v)) == Z.K_DICT))
+    for _txt, gname in getattr(con, 'globals_read', {}).items():
+        env[gname] = Z.fresh_val('glob_' + gname)      # a class-level / module-level value read by the function: arbitrary at entry (typed by requires)
     for gname in getattr(con, 'global_dicts', []):
         gv = Z.fresh_val('glob_' + gname)
         env[gname] = gv
